@@ -190,10 +190,16 @@ def r18_6(rep, M, rid):
         rep.ok(rid, "get_connected_directions: direction d is connected iff some unit has incoming edges with multiplier +e_d and -e_d")
     else:
         raise AnalysisError("get_connected_directions: conjunction of the +d and -d findings not recognised")
-    # result polarity: directions left in the set are the *un*connected ones
-    neg_store = [s for s in ast.walk(fn) if isinstance(s, ast.Assign) and isinstance(s.targets[0], ast.Subscript) and isinstance(s.value, ast.Constant)]
-    init = [s for s in ast.walk(fn) if isinstance(s, ast.Assign) and isinstance(s.value, ast.Call) and "[True, True, True]" in norm(s.value)]
-    if neg_store and init and all(s.value.value is False for s in neg_store) and "directions -= " in src:
+    # result polarity: directions left in the candidate set are the *un*connected ones
+    rets = [r for r in ast.walk(fn) if isinstance(r, ast.Return) and isinstance(r.value, ast.Name)]
+    flags = rets[-1].value.id if rets else None
+    init = [s2 for s2 in ast.walk(fn) if isinstance(s2, ast.Assign) and norm(s2.targets[0]) == flags and "[True, True, True]" in norm(s2.value)]
+    stores = [s2 for s2 in ast.walk(fn) if isinstance(s2, ast.Assign) and isinstance(s2.targets[0], ast.Subscript) and norm(s2.targets[0].value) == flags
+              and isinstance(s2.value, ast.Constant)]
+    left = {x.id for s2 in stores for x in ast.walk(s2.targets[0].slice) if isinstance(x, ast.Name)}
+    shrunk = [s2 for s2 in ast.walk(fn) if isinstance(s2, ast.AugAssign) and isinstance(s2.op, ast.Sub) and isinstance(s2.target, ast.Name) and s2.target.id in left]
+    added = {norm(c.func.value) for t in both for s2 in t.body for c in ast.walk(s2) if isinstance(c, ast.Call) and isinstance(c.func, ast.Attribute) and c.func.attr == "add"}
+    if flags and init and stores and all(s2.value.value is False for s2 in stores) and shrunk and any(norm(s2.value) in added for s2 in shrunk):
         rep.ok(rid, "get_connected_directions: connected directions are removed from the candidate set, the rest is reported False")
     else:
         rep.violation(rid, "get_connected_directions: result polarity", "the returned flags are not 'True except for the directions never closed'", M.where(fq))
